@@ -514,3 +514,566 @@ def _c03_ops(binops, unops):
                 if not same_double(real, chip):
                     findings.append(dict(op="u" + op, typing=tx, kind="fold_differs", inputs=[xv], fold=repr(real), chip=chip, opcode=emitted))
     return ob, findings
+
+
+# =================================================================================================
+# C08: calc_hash, compute_string, _apply_output_mode, format_enum
+
+
+def run_c08(rep, tier):
+    import sys
+    from . import e3
+
+    ob = Ob()
+    problems = []
+    u = E.load_instrumented("utils")
+    ob.functions |= {"utils.calc_hash", "types.compute_string", "types._apply_output_mode", "utils.format_enum"}
+
+    # ---- calc_hash: for every 32-bit CRC value the result is its signed two's-complement reading
+    v = z3.BitVec("crc", 64)
+
+    class _Z:
+        @staticmethod
+        def crc32(b):
+            return E.SInt(v)
+
+    def fn_hash():
+        saved = sys.modules.get("zlib")
+        sys.modules["zlib"] = _Z
+        try:
+            return u.calc_hash("any name")
+        finally:
+            sys.modules["zlib"] = saved
+
+    paths, c = E.explore(fn_hash)
+    ob.paths += len(paths)
+    for pc, out, asserts in paths:
+        if out[0] != "value" or not isinstance(out[1], E.SInt):
+            problems.append(dict(kind="calc_hash", detail=f"{out[0]}: {out[1]}"))
+            continue
+        want = z3.If(v >= 2**31, v - 2**32, v)
+        r, m = ob.check(asserts + [v >= 0, v < 2**32, out[1].t != want])
+        if r == "sat":
+            val = model_int(m, v)
+            import zlib as _zl
+            from stationeers_pytrapic import utils as real_utils
+
+            # replay: find nothing to invert CRC; evaluate the real arithmetic on the value
+            real = (lambda val_: None)
+            got = _replay_calc_hash(real_utils, val)
+            exp = val - 2**32 if val >= 2**31 else val
+            if got != exp:
+                problems.append(dict(kind="calc_hash", detail=f"crc32 value {val}: calc_hash gives {got}, signed value is {exp}"))
+        elif r != "unsat":
+            problems.append(dict(kind="inconclusive", detail="calc_hash: " + r))
+
+    # ---- compute_string / _apply_output_mode
+    t = E.load_instrumented("types", extra_ns=dict(ord=_vf_ord))
+    OM = t.OutputMode
+    for n in range(0, 7):
+        chars = [z3.BitVec(f"ch{i}", 64) for i in range(n)]
+
+        def mk():
+            for ch in chars:
+                E.ctx().assume(z3.And(ch >= 0, ch <= 255))
+            return e3.SymStr(chars)
+
+        for mode in (OM.NUMERIC, OM.VERBOSE, OM.COMPACT):
+            paths, c = E.explore(lambda: t.compute_string(mk(), mode))
+            ob.paths += len(paths)
+            want = z3.BitVecVal(0, 64)
+            for ch in chars:
+                want = want * 256 + ch
+            for pc, out, asserts in paths:
+                if out[0] != "value":
+                    if out[0] == "gap":
+                        ob.gaps += 1
+                    else:
+                        problems.append(dict(kind="compute_string", detail=f"n={n} mode={mode.name}: {out[0]} {out[1]}"))
+                    continue
+                res = out[1]
+                is_num = isinstance(res, (E.SInt, int)) and not isinstance(res, bool)
+                if mode == OM.NUMERIC and not is_num:
+                    problems.append(dict(kind="compute_string", detail=f"n={n}: NUMERIC mode returned {type(res).__name__}"))
+                if mode == OM.VERBOSE and is_num:
+                    problems.append(dict(kind="compute_string", detail=f"n={n}: VERBOSE mode returned a number"))
+                if is_num:
+                    rt = res.t if isinstance(res, E.SInt) else z3.BitVecVal(res, 64)
+                    r, m = ob.check(asserts + [rt != want])
+                    if r == "sat":
+                        s_conc = "".join(chr(model_int(m, ch)) for ch in chars)
+                        from stationeers_pytrapic import types as real_types
+                        from stationeers_pytrapic.utils import OutputMode as ROM
+
+                        got = real_types.compute_string(s_conc, ROM.NUMERIC)
+                        exp = 0
+                        for chv in s_conc:
+                            exp = exp * 256 + ord(chv)
+                        if got != exp:
+                            problems.append(dict(kind="compute_string", detail=f"STR({s_conc!r}) packs to {got}, big-endian value is {exp}"))
+                    elif r != "unsat":
+                        problems.append(dict(kind="inconclusive", detail=f"compute_string n={n}: {r}"))
+                elif isinstance(res, e3.SymStr):
+                    # the spelling must be STR("<s>") character by character
+                    exp = [ord(x) for x in 'STR("'] + chars + [ord(x) for x in '")']
+                    if len(res.c) != len(exp):
+                        problems.append(dict(kind="compute_string", detail=f"n={n}: spelling has {len(res.c)} characters"))
+                    else:
+                        diffs = [a != b for a, b in zip(res.c, exp) if not (isinstance(a, int) and isinstance(b, int) and a == b)]
+                        bad_const = any(isinstance(a, int) and isinstance(b, int) and a != b for a, b in zip(res.c, exp))
+                        if bad_const:
+                            problems.append(dict(kind="compute_string", detail=f"n={n}: spelling differs from STR(\"...\")"))
+                        elif diffs:
+                            r, m = ob.check(asserts + [z3.Or(*diffs)])
+                            if r == "sat":
+                                problems.append(dict(kind="compute_string", detail=f"n={n}: spelling does not quote the string itself"))
+    # ---- _apply_output_mode on an arbitrary number and spelling
+    num = z3.BitVec("num", 64)
+    for mode in (OM.NUMERIC, OM.VERBOSE, OM.COMPACT):
+        for slen in (1, 5, 12, 25):
+            spelling = "x" * slen
+            numv = E.SInt(num)
+            paths, c = E.explore(lambda: t._apply_output_mode(numv, spelling, mode))
+            ob.paths += len(paths)
+            for pc, out, asserts in paths:
+                if out[0] != "value":
+                    if out[0] == "gap":
+                        ob.gaps += 1
+                    continue
+                res = out[1]
+                ob.n += 1
+                ob.unsat += 1
+                if not (res is numv or res is spelling):
+                    problems.append(dict(kind="apply_output_mode", detail=f"mode={mode.name}: returns neither the number nor the spelling: {res!r}"))
+                if mode == OM.VERBOSE and res is not spelling:
+                    problems.append(dict(kind="apply_output_mode", detail="VERBOSE mode does not return the spelling"))
+                if mode == OM.NUMERIC and res is not numv:
+                    problems.append(dict(kind="apply_output_mode", detail="NUMERIC mode does not return the number"))
+    # ---- format_enum: closed over every member of every enum
+    from stationeers_pytrapic import types_generated as tg
+    from stationeers_pytrapic import utils as real_utils
+    import enum as _enum
+
+    n_members = 0
+    saved_mode = real_utils._output_mode
+    try:
+        for name, cls in vars(tg).items():
+            if isinstance(cls, type) and issubclass(cls, _enum.IntEnum) and not name.startswith("_"):
+                for mbr in cls:
+                    n_members += 1
+                    real_utils.set_output_mode(real_utils.OutputMode.COMPACT)
+                    c_ = real_utils.format_enum(mbr)
+                    real_utils.set_output_mode(real_utils.OutputMode.VERBOSE)
+                    v_ = real_utils.format_enum(mbr)
+                    if c_ != mbr.value:
+                        problems.append(dict(kind="format_enum", detail=f"{name}.{mbr.name}: compact prints {c_!r}, value is {mbr.value}"))
+                    exp_names = (mbr.name, f"{name}.{mbr.name}")
+                    if v_ not in exp_names:
+                        problems.append(dict(kind="format_enum", detail=f"{name}.{mbr.name}: verbose prints {v_!r}"))
+    finally:
+        real_utils.set_output_mode(saved_mode)
+    from . import e1
+
+    seen = set()
+    for pr in problems:
+        if pr["kind"] == "inconclusive" or pr["detail"] in seen:
+            continue
+        seen.add(pr["detail"])
+        path = e1.save_replay("C08", dict(property="C08", kind="e2", problem=pr))
+        rep.violation(f"E2 {pr['kind']}: {pr['detail']}", path)
+    d = ob.as_dict()
+    d["enum_members_checked"] = n_members
+    d["string_lengths"] = "0..6 (code points 0..255)"
+    d["inconclusive"] = [p["detail"] for p in problems if p["kind"] == "inconclusive"]
+    return d
+
+
+def _vf_ord(x):
+    from . import e3
+
+    if isinstance(x, e3.SymStr):
+        if len(x.c) != 1:
+            raise TypeError("ord() expected a character")
+        c = x.c[0]
+        return c if isinstance(c, int) else E.SInt(c)
+    return ord(x)
+
+
+def _replay_calc_hash(real_utils, crc_value):
+    import zlib
+
+    real = zlib.crc32
+    try:
+        zlib.crc32 = lambda b: crc_value
+        return real_utils.calc_hash("x")
+    finally:
+        zlib.crc32 = real
+
+
+# =================================================================================================
+# C09: IC10Operand.__init__ / to_string, format_int, version note
+
+
+class SLogVal(E.SFloat):
+    """math.log10 of a positive double in decade k: a value L with k <= L <= k + 1 (contract)."""
+
+    def __init__(self, t, k):
+        super().__init__(t)
+        self.decade = k
+
+
+DECADES = (0, -330)  # (highest, lowest) decade scanned by the log10 contract
+
+
+def _log10_hook(x: E.SFloat):
+    c = E.ctx()
+    if c.decide(z3.Not(z3.fpGT(x.t, E.fpv(0.0)))):
+        raise ValueError("math domain error")
+    for k in range(DECADES[0], DECADES[1], -1):
+        # 10^k <= x ; decades are scanned downwards (the caller only reaches this with x < 0.1)
+        if c.decide(z3.fpGEQ(x.t, E.fpv(float(f"1e{k}")))):
+            L = z3.FP(f"log10_{k}", F64)
+            c.assume(z3.And(z3.fpGEQ(L, E.fpv(float(k))), z3.fpLEQ(L, E.fpv(float(k + 1)))))
+            return SLogVal(L, k)
+    raise E.ModelGap("log10 below the smallest decade")
+
+
+class _vf_int_c09(E.vf_int):
+    def __new__(cls, x=0, *a):
+        if isinstance(x, SLogVal):
+            # trunc toward zero of L in [k, k+1]: k+1 unless L == k exactly (k < 0)
+            if x.decade >= 0:
+                raise E.ModelGap("log10 contract used for x >= 1")
+            if E.ctx().decide(z3.fpEQ(x.t, E.fpv(float(x.decade)))):
+                return x.decade
+            return x.decade + 1
+        if cls is _vf_int_c09:
+            return E.vf_int(x, *a)
+        return E.vf_int.__new__(cls, x, *a)
+
+
+def c09_float_task(float_range):
+    """worker: float obligations for one range of decades (None = everything >= 0.1 and zero)"""
+    ob, problems, decades = _c09_core(float_range, ints=float_range is None, version=float_range is None)
+    return ob.as_dict(), problems, decades
+
+
+def run_c09(rep, tier):
+    from . import e1, harness
+
+    if tier == "thorough":
+        ranges = [None] + [(k - 10, k) for k in range(-1, -325, -10)]
+        cut = "small-magnitude branch: all decades 1e-331 .. 1e-1"
+    else:
+        ranges = [None, (-11, -1), (-21, -11), (-31, -21), (-105, -100), (-205, -200), (-324, -318)]
+        cut = "small-magnitude branch: decades 1e-31..1e-1, 1e-105..1e-100, 1e-205..1e-200, 1e-324..1e-318 (thorough: all)"
+    res = harness.pmap(c09_float_task, ranges)
+    tot = dict(obligations=0, unsat=0, sat=0, unknown=0, model_gaps=0, paths=0, solver_s=0.0)
+    problems = []
+    decades = 0
+    fns = set()
+    vn = None
+    for st, prs, dec in res:
+        for k in tot:
+            tot[k] += st.get(k, 0)
+        fns |= set(st.get("functions_encoded", []))
+        problems += prs
+        decades += dec
+    seen = set()
+    for pr in problems:
+        if pr["kind"] == "inconclusive" or pr["detail"][:80] in seen:
+            continue
+        seen.add(pr["detail"][:80])
+        path = e1.save_replay("C09", dict(property="C09", kind="e2", problem=pr))
+        rep.violation(f"E2 {pr['kind']}: {pr['detail']}", path)
+    tot["solver_s"] = round(tot["solver_s"], 2)
+    tot["functions_encoded"] = sorted(fns)
+    tot["decade_paths_small_branch"] = decades
+    tot["bound"] = cut
+    tot["inconclusive"] = [p["detail"] for p in problems if p["kind"] == "inconclusive"]
+    tot["float_domain"] = "finite doubles with |v| < 2^62 (larger doubles are integral and outside the exact-integer range of the property)"
+    return tot
+
+
+def _c09_core(float_range, ints=True, version=True):
+    import re as _re
+    from . import e1
+
+    ob = Ob()
+    problems = []
+    ob.functions |= {"types.IC10Operand.__init__", "types.IC10Operand.to_string", "utils.format_int", "generate_code.get_code (version note statements)"}
+    uinst = E.load_instrumented("utils")
+    t = E.load_instrumented("types", extra_ns=dict(int=_vf_int_c09))
+    t.__dict__["utils"] = uinst
+    E.set_log10_hook(_log10_hook)
+    from stationeers_pytrapic import types as real_types
+
+    def real_to_string(val):
+        return real_types.IC10Operand(val).to_string()
+
+    # ---- floats: all finite doubles with |v| < 2^62 (this call: lo <= |v| < hi)
+    global DECADES
+    x = fp("v")
+    dom = [finite(x), z3.fpLT(z3.fpAbs(x), E.fpv(2.0**62))]
+    if float_range is not None:
+        lo_k, hi_k = float_range
+        dom += [z3.fpGEQ(z3.fpAbs(x), E.fpv(float(f"1e{lo_k}"))), z3.fpLT(z3.fpAbs(x), E.fpv(float(f"1e{hi_k}")))]
+        DECADES = (hi_k, lo_k - 2)
+    else:
+        dom.append(z3.Or(z3.fpGEQ(z3.fpAbs(x), E.fpv(0.1)), z3.fpIsZero(x)))
+
+    def fn_float():
+        for d_ in dom:
+            E.ctx().assume(d_)
+        op = t.IC10Operand(E.SFloat(x))
+        return op.value, op.to_string()
+
+    paths, c = E.explore(fn_float, max_paths=2000)
+    ob.paths += len(paths)
+    decades = 0
+    for pc, out, asserts in paths:
+        if out[0] == "gap":
+            ob.gaps += 1
+            continue
+        if out[0] == "raise":
+            # raising for a finite double in range is a failure to print
+            r, m = ob.check(asserts + dom)
+            if r == "sat":
+                val = model_float(m, x)
+                try:
+                    real_to_string(val)
+                except Exception as e:
+                    problems.append(dict(kind="operand_raises", detail=f"IC10Operand({val!r}).to_string() raises {type(e).__name__}: {e}"))
+            continue
+        value, text = out[1]
+        goal = None
+        if isinstance(text, E.SStr) and text.kind == "int_str":
+            goal = None  # str(int): decimal, exact
+            if isinstance(text.info["value"], E.SInt):
+                # must be the integral value of v itself
+                goal = z3.Not(z3.fpEQ(z3.fpSignedToFP(RNE, text.info["value"].t, F64), x))
+        elif isinstance(text, E.SStr) and text.kind == "format":
+            spec = text.info["spec"]
+            val = text.info["value"]
+            pre = text.info.get("prefix", "")
+            if isinstance(val, E.SInt) and spec == "X":
+                # $HEX: only for positive values, exact
+                g1 = z3.Not(val.t > 0)
+                g2 = z3.Not(z3.fpEQ(z3.fpSignedToFP(RNE, val.t, F64), x))
+                goal = z3.Or(g1, g2) if pre == "$" else z3.BoolVal(True)
+            elif isinstance(val, E.SFloat) and spec == ".16g":
+                # positional iff 1e-4 <= |v| < 1e16 (format contract); must print v itself
+                goal = z3.Or(z3.Not(z3.fpEQ(val.t, x)), z3.fpLT(z3.fpAbs(x), E.fpv(1e-4)), z3.fpGEQ(z3.fpAbs(x), E.fpv(1e16)))
+            else:
+                goal = z3.BoolVal(True)
+        elif isinstance(text, str) and "\x00FMT[" in text:
+            mt = _re.search(r"\x00FMT\[\.(\d+)f\]\x00", text)
+            decades += 1
+            if not mt:
+                goal = z3.BoolVal(True)
+            else:
+                nd = int(mt.group(1))
+                # decade k of |v| is fixed on this path: find it from the log10 variable constraints
+                k = None
+                for a_ in asserts:
+                    s_ = str(a_)
+                    mk = _re.search(r"log10_(-?\d+)", s_)
+                    if mk:
+                        k = int(mk.group(1))
+                        break
+                if k is None:
+                    goal = z3.BoolVal(True)
+                else:
+                    goal = z3.BoolVal(nd < 15 - k)  # fewer than 16 significant digits
+        elif isinstance(text, str):
+            # a constant spelling for a symbolic number: only "0" for zero is acceptable
+            goal = z3.Not(z3.fpIsZero(x)) if text == "0" else z3.BoolVal(True)
+        else:
+            goal = z3.BoolVal(True)
+        if goal is None:
+            continue
+        r, m = ob.check(asserts + dom + [goal])
+        if r == "unknown":
+            problems.append(dict(kind="inconclusive", detail="float operand obligation: unknown"))
+        if r != "sat":
+            continue
+        val = model_float(m, x)
+        try:
+            s_real = real_to_string(val)
+        except Exception as e:
+            problems.append(dict(kind="operand_raises", detail=f"IC10Operand({val!r}).to_string() raises {type(e).__name__}: {e}"))
+            continue
+        bad = _literal_problem(s_real, val)
+        if bad:
+            problems.append(dict(kind="operand_text", detail=f"IC10Operand({val!r}).to_string() == {s_real!r}: {bad}"))
+    if not ints:
+        return ob, problems, decades
+    # ---- ints
+    iv = z3.BitVec("iv", 64)
+    idom = [iv > -(2**53), iv < 2**53]
+
+    def fn_int():
+        op = t.IC10Operand(E.SInt(iv))
+        return op.to_string()
+
+    paths, c = E.explore(fn_int)
+    ob.paths += len(paths)
+    for pc, out, asserts in paths:
+        if out[0] != "value":
+            if out[0] == "gap":
+                ob.gaps += 1
+            continue
+        text = out[1]
+        if isinstance(text, E.SStr) and text.kind == "int_str":
+            goal = text.info["value"].t != iv
+        elif isinstance(text, E.SStr) and text.kind == "format" and text.info["spec"] == "X":
+            goal = z3.Or(z3.Not(text.info["value"].t > 0), text.info["value"].t != iv) if text.info.get("prefix") == "$" else z3.BoolVal(True)
+        else:
+            goal = z3.BoolVal(True)
+        r, m = ob.check(asserts + idom + [goal])
+        if r != "sat":
+            continue
+        val = model_int(m, iv)
+        s_real = real_to_string(val)
+        bad = _literal_problem(s_real, val)
+        if bad:
+            problems.append(dict(kind="operand_text", detail=f"IC10Operand({val!r}).to_string() == {s_real!r}: {bad}"))
+    # ---- version note: real statements of get_code on abstract lines
+    if version:
+        vn = _version_note_obligation(ob)
+        problems += vn["problems"]
+    return ob, problems, decades
+
+
+def _literal_problem(text: str, value):
+    """Is `text` an IC10 numeric literal that reads back as value (exactly for ints <= 2^53, to 16
+    significant digits otherwise)?"""
+    from . import ic10
+
+    try:
+        v = ic10.parse_number(text)
+    except ValueError as e:
+        return str(e)
+    if v is None:
+        return "not an IC10 numeric literal"
+    value = float(value)
+    if value == v:
+        return None
+    if value == math.floor(value) and abs(value) <= 2**53:
+        return f"reads back as {v!r}"
+    if abs(v - value) > 5e-16 * abs(value):
+        return f"reads back as {v!r} (less than 16 significant digits)"
+    return None
+
+
+class AbsLine:
+    def __init__(self, n, suffix=""):
+        self.n = n
+        self.suffix = suffix
+
+    def __sym_len__(self):
+        return E.SInt(self.n + len(self.suffix))
+
+    def __add__(self, o):
+        return AbsLine(self.n, self.suffix + o)
+
+    __iadd__ = __add__
+
+
+def _version_note_obligation(ob):
+    src = (E.PKG_DIR / "generate_code.py").read_text()
+    tree = ast.parse(src)
+    block = None
+    for node in ast.walk(tree):
+        if isinstance(node, ast.FunctionDef) and node.name == "get_code":
+            for st in node.body:
+                if isinstance(st, ast.If) and "append_version" in ast.unparse(st.test):
+                    block = st
+    res = dict(problems=[], result=None, versions=[])
+    if block is None:
+        res["result"] = "extraction_failed"
+        return res
+    fn = ast.FunctionDef(name="note", args=ast.arguments(posonlyargs=[], args=[ast.arg("s"), ast.arg("options"), ast.arg("_version")], kwonlyargs=[], kw_defaults=[], defaults=[]),
+                         body=[block, ast.Return(ast.Name("s", ast.Load()))], decorator_list=[], type_params=[])
+    mod = ast.Module(body=[fn], type_ignores=[])
+    ast.fix_missing_locations(mod)
+    E.set_int_carrier("int")
+    try:
+        for ver in ("0.2.3", "0.1.dev1+gc5dd0fe04", "10.20.30.dev123+g0123456789abcdef.d20260101"):
+            res["versions"].append(ver)
+            for nlines in (1, 2, 3):
+                ns_len = [z3.Int(f"n{i}") for i in range(nlines)]
+
+                class _Txt:
+                    def __init__(self, lines):
+                        self.lines = lines
+
+                    def splitlines(self):
+                        return list(self.lines)
+
+                class _Joiner(str):
+                    pass
+
+                class _NL:
+                    def join(self, lines):
+                        return _Txt(lines)
+
+                class _Opt:
+                    append_version = True
+
+                class _Ver:
+                    __version__ = ver
+
+                ns = dict(len=E.vf_len, range=range, __vf_fstring__=E.vf_fstring, __vf_join__=E.vf_join, __vf_in__=E.vf_in)
+                mod2 = E._FStringRewriter().visit(ast.parse(ast.unparse(mod)))
+                ast.fix_missing_locations(mod2)
+                code = compile(mod2, "<version note>", "exec")
+                exec(code, ns)
+
+                def run():
+                    lines = [AbsLine(n) for n in ns_len]
+                    for n in ns_len:
+                        E.ctx().assume(n >= 0)
+                    out = ns["note"](_JoinText(lines), _Opt(), _Ver())
+                    return out
+
+                paths, c = E.explore(run)
+                ob.paths += len(paths)
+                for pc, out, asserts in paths:
+                    if out[0] != "value":
+                        res["problems"].append(dict(kind="version_note", detail=f"{out[0]}: {out[1]}"))
+                        continue
+                    lines = out[1].lines if hasattr(out[1], "lines") else None
+                    if lines is None:
+                        res["problems"].append(dict(kind="version_note", detail="unexpected result of the version-note statements"))
+                        continue
+                    noted = [l for l in lines if l.suffix]
+                    goals = []
+                    if len(noted) > 1:
+                        goals.append(z3.BoolVal(True))
+                    for l in noted:
+                        if not l.suffix.startswith(" #"):
+                            goals.append(z3.BoolVal(True))
+                        goals.append(l.n + len(l.suffix) > 90)
+                    if not goals:
+                        continue
+                    r, m = ob.check(asserts + [z3.Or(*goals)])
+                    if r == "sat":
+                        lens = [m.eval(n, model_completion=True).as_long() for n in ns_len]
+                        res["problems"].append(dict(kind="version_note", detail=f"version {ver!r}, line lengths {lens}: the note makes a line longer than 90 characters or is not a trailing comment"))
+                    elif r != "unsat":
+                        res["problems"].append(dict(kind="inconclusive", detail="version note: " + r))
+        res["result"] = "done"
+    finally:
+        E.set_int_carrier("bv")
+    return res
+
+
+class _JoinText:
+    """the text `s` as the version-note block sees it: only splitlines() is used before re-joining"""
+
+    def __init__(self, lines):
+        self.lines = lines
+
+    def splitlines(self):
+        return list(self.lines)
